@@ -44,6 +44,10 @@ def gen_case(rng):
             if x < 0.02 and n_entries < 12:
                 # an entry whose result could not be stored (e.g. unpicklable output): directory + metadata, no output.pkl
                 ops.append(["orphan", n_entries, rng.choice(SIZES)]); n_entries += 1
+            elif x < 0.06 and n_entries:
+                # what a writer killed in the middle of a dump leaves behind: its temporary file, next to the (possibly
+                # complete) result of the entry -- bytes of the store like any other
+                ops.append(["tmpfile", rng.randrange(n_entries), rng.choice([100, 1500, 64000, 300000])])
             elif x < 0.5 and n_entries < 12:
                 ops.append(["new", n_entries, rng.choice(SIZES)]); n_entries += 1
             elif x < 0.7 and n_entries:
@@ -59,6 +63,7 @@ def gen_case(rng):
             # fault: another cleaner removes entry number k (in scan order) while reduce_size is scanning the store, right
             # after its access time was read (no writer involved): it must simply be left out of the accounting
             rnd["vanish_at"] = rng.randint(0, 5)
+            rnd["vanish_mode"] = rng.choice(["stat", "list"])     # after its access time was read / before its directory is listed
         if rng.random() < 0.2:
             # fault: the k-th deletion hits "[Errno 116] Stale file handle" (the entry was being removed by another cleaner:
             # it is gone, but rmtree raises) -- the case enforce_store_limits documents and tolerates
@@ -117,6 +122,12 @@ def run_case(case):
                         os.unlink(os.path.join(entries[i]["path"], "output.pkl"))
                         entries[i]["live"] = False; entries[i]["orphan"] = True
                         stats["orphans"] = stats.get("orphans", 0) + 1
+                elif op[0] == "tmpfile":
+                    err = None
+                    if os.path.isdir(entries[op[1]]["path"]):
+                        with open(os.path.join(entries[op[1]]["path"], "output.pkl.thread-140012345678-pid-%d" % (4000 + op[1])), "wb") as fh_:
+                            fh_.write(b"t" * op[2])
+                        stats["tmpfiles"] = stats.get("tmpfiles", 0) + 1
                 elif op[0] == "hit":
                     err = call(op[1], 0 if entries[op[1]]["live"] else 1)
                     entries[op[1]].pop("orphan", None)
@@ -147,7 +158,21 @@ def run_case(case):
             orphans = {i: e for i, e in entries.items() if e.get("orphan") and os.path.isdir(e["path"])}
             vanished = []
             real_getatime = os.path.getatime
-            if "vanish_at" in rnd:
+            real_scandir = os.scandir
+            if "vanish_at" in rnd and rnd.get("vanish_mode") == "list":
+                seen = [0]
+                entry_dirs = {e["path"] for e in live.values()}
+
+                def scandir(path_="."):
+                    sp = os.fspath(path_) if isinstance(path_, (str, bytes, os.PathLike)) else None      # (rmtree lists by descriptor)
+                    if sp in entry_dirs:
+                        k = seen[0]; seen[0] += 1
+                        if k == rnd["vanish_at"]:
+                            _sh.rmtree(sp, ignore_errors=True)
+                            vanished.append(sp)
+                    return real_scandir(path_)
+                os.scandir = scandir
+            elif "vanish_at" in rnd:
                 seen = [0]
 
                 def getatime(path_):
@@ -178,6 +203,7 @@ def run_case(case):
                 break
             finally_restore = sb.__dict__.__setitem__("shutil", _sh)
             os.path.getatime = real_getatime
+            os.scandir = real_scandir
             stats["stale"] = stats.get("stale", 0) + fired[0]
             if vanished:
                 # the externally removed entry is nobody's eviction: judge the rest
@@ -256,7 +282,8 @@ def run_case(case):
                 break
         return {"verdict": verdict, "digest": h.hexdigest()[:24], "shape": hs.hexdigest()[:16], "steps": sum(len(r["ops"]) for r in case["rounds"]),
                 "switches": 0, "sim_time": clock.now - 1.7e9, "faults": {k_: v_ for k_, v_ in {"stale_file_handle_in_rmtree": stats.get("stale", 0), "entry_vanishes_during_scan": stats.get("vanished", 0),
-                                                   "entry_without_result": stats.get("orphans", 0)}.items() if v_}, "nontrivial": nontrivial,
+                                                   "entry_without_result": stats.get("orphans", 0),
+                                                   "leftover_temporary_file_of_a_killed_writer": stats.get("tmpfiles", 0)}.items() if v_}, "nontrivial": nontrivial,
                 "probes": {"reduce_with_ties_in_access_time": stats["ties"], "exact_fit_limit": stats["exact_fit"], "entries_evicted": stats["evicted"]},
                 "sample": case["rounds"][0]}
     finally:
